@@ -26,3 +26,4 @@ def check(ctx, prog):
     kinds.rule_index_kind(ctx, prog)  # a number is a variable index or a shared-domain index, not both
     model.rule_split(ctx, prog)  # scope: the parts enumerated by the multiprocessing solver stay inside (and exactly cover) the declared domain
     model.rule_decision_cover(ctx, prog)
+    optimize.rule_is_solved(ctx, prog)  # is_solved looks at every shared domain
